@@ -49,6 +49,7 @@ fn eval_hist(line: &str) -> String {
     guarded(move || {
         let t = toks(&line);
         let Some(slash) = t.iter().position(|x| *x == "/") else { return format!("BADCASE {line}") };
+        crate::object::set_universe(t[1]);
         let mut o1 = json_syntax::Object::new();
         for op in &t[2..slash] {
             crate::object::apply(&mut o1, op);
@@ -363,6 +364,52 @@ pub fn generate(args: &Args, out: &mut Out) {
             let b2: Vec<String> = es.iter().map(|(k, v)| format!("push:{k}:{v}")).collect();
             out.case_str(&format!("uh {nk} {} / {}", f.join(" "), b2.join(" ")));
         }
+    }
+    // grow / drain: an object that held 29..130 distinct keys and is cut down by removals at positions
+    // (a key index that shrinks or re-hashes on the way has to keep answering), against the surviving
+    // entries pushed afresh, in order and reversed; observed at several points of the drain
+    for _ in 0..(if full { 3000 } else { 250 }) {
+        let mut r = rng.fork();
+        let nk = *r.pick(&[29usize, 30, 40, 57, 58, 70, 130]);
+        let mut ops: Vec<String> = (0..nk).map(|i| format!("push:{}:{}", i, r.below(3))).collect();
+        let mut alive = ops.clone();
+        let floor = r.below(17);
+        while alive.len() > floor {
+            let at = if r.chance(1, 6) { alive.len() - 1 } else { r.below(alive.len()) };
+            ops.push(format!("rmat:{at}"));
+            alive.remove(at);
+            if alive.len() <= 18 && (alive.len() >= 14 || r.chance(1, 3)) || r.chance(1, 25) {
+                let mut other = alive.clone();
+                if r.chance(1, 2) {
+                    other.reverse();
+                }
+                out.case_str(&format!("uh {nk} {} / {}", ops.join(" "), other.join(" ")));
+                out.case_str(&format!("uh {nk} {} / {}", other.join(" "), ops.join(" ")));
+            }
+        }
+    }
+    // the second key universe (names ordered differently by code points and by UTF-16 units): one side
+    // sorted or canonicalized after it was built, against the same entries in another order
+    for _ in 0..(if full { 6000 } else { 600 }) {
+        let mut r = rng.fork();
+        let nk = 11usize;
+        let es: Vec<String> = (0..r.range(2, 8)).map(|_| format!("push:{}:{}", r.below(nk), r.below(2))).collect();
+        let mut h1 = es.clone();
+        h1.push((*r.pick(&["canon", "canon", "sort"])).to_string());
+        let mut h2 = es.clone();
+        match r.below(3) {
+            0 => h2.reverse(),
+            1 => h2.rotate_left(1),
+            _ => (),
+        }
+        out.case_str(&format!("uh {nk} {} / {}", h1.join(" "), h2.join(" ")));
+        out.case_str(&format!("uh {nk} {} / {}", h2.join(" "), h1.join(" ")));
+        out.case_str(&format!("uh {nk} {} / {}", h1.join(" "), h1.join(" ")));
+        h2.push("canon".into());
+        h2.push(format!("push:{}:{}", r.below(nk), r.below(2)));
+        let mut h3 = h1.clone();
+        h3.push(h2.last().unwrap().clone());
+        out.case_str(&format!("uh {nk} {} / {}", h3.join(" "), h2.join(" ")));
     }
     // random large values: shuffled copies (must be equal) and single mutations (usually differ)
     let n = if full { 200000 } else { 15000 };
